@@ -276,19 +276,34 @@ theorem loops_chunks (o : Parser.Opts) (hun : o.unfold = true) (hpr : o.prem = t
 /-- a block or frame code: non-empty, allowed non-blank characters -/
 def codeR (dia : Dialect) (code : Str) : Prop := (Tk.data code).ok dia = true
 
-/-- `es` are the save frames (one level: no frames inside), for some presentation of every value -/
-def FramesRel (o : Parser.Opts) : List WContainer → List Elem → Prop
-  | [], es => es = []
-  | k :: r, es => ∃ code loops its es', k = .mk code [] loops ∧ LoopsRel o loops its ∧ es = .frame code its :: es' ∧ FramesRel o r es'
+mutual
+  /-- `e` is the save frame `k` — its save frames first, then its items —, for some presentation of every value -/
+  def FrameRel (o : Parser.Opts) : WContainer → Elem → Prop
+    | .mk code frames loops, e =>
+      ∃ es its, FramesRel o frames es ∧ LoopsRel o loops its ∧ e = .frame code (es ++ its.map Elem.plain)
+  /-- `es` are the save frames, in order -/
+  def FramesRel (o : Parser.Opts) : List WContainer → List Elem → Prop
+    | [], es => es = []
+    | k :: r, es => ∃ e es', FrameRel o k e ∧ es = e :: es' ∧ FramesRel o r es'
+end
 
 /-- `b` is the data block, for some presentation of every value: frames first, then the items -/
 def BlockRel (o : Parser.Opts) (k : WContainer) (b : Block) : Prop :=
   ∃ code frames loops elems its, k = .mk code frames loops ∧ FramesRel o frames elems ∧ LoopsRel o loops its
     ∧ b = { code := code, body := elems ++ its.map Elem.plain }
 
-/-- what is asked of a save frame: no frames inside -/
-def frameR (dia : Dialect) (nk : Str → Str) (k : WContainer) : Prop :=
-  ∃ code loops, k = .mk code [] loops ∧ codeR dia code ∧ ∀ l ∈ loops, loopR dia nk l
+mutual
+  /-- what is asked of a save frame (and of the save frames inside it) -/
+  def frameR (dia : Dialect) (nk : Str → Str) : WContainer → Prop
+    | .mk code frames loops => codeR dia code ∧ framesR dia nk frames ∧ ∀ l ∈ loops, loopR dia nk l
+  def framesR (dia : Dialect) (nk : Str → Str) : List WContainer → Prop
+    | [] => True
+    | k :: r => frameR dia nk k ∧ framesR dia nk r
+end
+
+theorem framesR_iff (dia : Dialect) (nk : Str → Str) : ∀ fs : List WContainer, framesR dia nk fs ↔ ∀ f ∈ fs, frameR dia nk f
+  | [] => by simp [framesR]
+  | k :: r => by simp [framesR, framesR_iff dia nk r]
 
 /-- what is asked of a data block -/
 def blockR (dia : Dialect) (nk : Str → Str) (k : WContainer) : Prop :=
@@ -324,59 +339,66 @@ theorem tail_frame (dia : Dialect) : Mach dia (wOk dia) [.ws [.eol], .tk .saveEn
     (fun lt w h => by obtain ⟨_, rfl⟩ := h; exact wOk_nil _ _)
   exact h1.append (mach_eol' _)
 
-theorem frame_chunks (o : Parser.Opts) (hun : o.unfold = true) (hpr : o.prem = true) (code : Str) (loops : List WLoop) (c : Ctx)
-    (out : Str) (c' : Ctx) (hdepth : c.depth = 1) (hd : o.dia = diaOf c) (hsv : c.separateValues = true) (hcode : codeR o.dia code)
-    (hR : ∀ l ∈ loops, loopR o.dia o.normKey l) (h : writeContainer (.mk code [] loops) c = .ok (out, c')) :
+mutual
+theorem frame_chunks (o : Parser.Opts) (hun : o.unfold = true) (hpr : o.prem = true) : ∀ (k : WContainer) (c : Ctx)
+    (out : Str) (c' : Ctx), 1 ≤ c.depth → o.dia = diaOf c → c.separateValues = true → frameR o.dia o.normKey k →
+    writeContainer k c = .ok (out, c') →
     c'.lastColumn = 0 ∧ KeepL c c' ∧
-    ∃ its cs, LoopsRel o loops its ∧ out = renderChunks cs ∧ toks cs = elemToks (.frame code its) ∧ Mach o.dia (wOk o.dia) cs (AS o.dia) := by
-  unfold writeContainer at h
-  split at h
-  · cases h
-  simp only at h
-  obtain ⟨o1, c1, o2, hhead, hrest, rfl⟩ := andThen_ok h
-  simp only [Except.ok.injEq, Prod.mk.injEq] at hhead
-  obtain ⟨rfl, rfl⟩ := hhead
-  obtain ⟨o3, c2, o4, hframes, hrest2, rfl⟩ := andThen_ok hrest
-  simp only [writeContainers, Except.ok.injEq, Prod.mk.injEq] at hframes
-  obtain ⟨rfl, rfl⟩ := hframes
-  obtain ⟨o5, c3, o6, hloops, hend, rfl⟩ := andThen_ok hrest2
-  obtain ⟨hz, hk, its, cs, hrel, hr, ht, hm⟩ := loops_chunks o hun hpr loops { c with lastColumn := 0, depth := c.depth + 1 } o5 c3
-    (by have := hd; exact this) hsv hR hloops
-  have hdep : ¬ (c3.depth - 1 = 0) := by rw [hk.2.1]; simp only; omega
-  simp only [hdep, if_false, Except.ok.injEq, Prod.mk.injEq] at hend
-  obtain ⟨rfl, rfl⟩ := hend
-  refine ⟨rfl, ⟨by simp only; rw [hk.1], by simp only; rw [hk.2.1]; simp only; omega, by simp only; rw [hk.2.2]⟩, its,
-    [.ws [.eol], .tk (.save code), .ws [.eol]] ++ (cs ++ [.ws [.eol], .tk .saveEnd, .ws [.eol]]), hrel, ?_, ?_, ?_⟩
-  · have hne : ¬ (c.depth = 0) := by omega
-    rw [renderChunks_append, renderChunks_append, ← hr]
-    simp [hne, renderChunks, renderWs, WsAtom.render, Tk.chars, FRAME_HEAD, FRAME_END]
-  · rw [toks_append, toks_append, ht]
-    simp [toks, Tk.spec, elemToks]
-  · exact (head_frame o.dia code hcode).append (hm.append ((tail_frame o.dia).weaken (fun _ _ h => h.1) (fun _ _ h => h)))
+    ∃ e cs, FrameRel o k e ∧ out = renderChunks cs ∧ toks cs = elemToks e ∧ Mach o.dia (wOk o.dia) cs (AS o.dia)
+  | .mk code frames loops, c, out, c', hdepth, hd, hsv, hR, h => by
+    simp only [frameR] at hR
+    obtain ⟨hcode, hframesR, hloopsR⟩ := hR
+    unfold writeContainer at h
+    split at h
+    · cases h
+    simp only at h
+    obtain ⟨o1, c1, o2, hhead, hrest, rfl⟩ := andThen_ok h
+    simp only [Except.ok.injEq, Prod.mk.injEq] at hhead
+    obtain ⟨rfl, rfl⟩ := hhead
+    obtain ⟨o3, c2, o4, hframes, hrest2, rfl⟩ := andThen_ok hrest
+    obtain ⟨o5, c3, o6, hloops, hend, rfl⟩ := andThen_ok hrest2
+    obtain ⟨hz1, hk1, es, cs1, hrel1, hr1, ht1, hm1⟩ := frames_chunks o hun hpr frames { c with lastColumn := 0, depth := c.depth + 1 } o3 c2
+      (by simp only; omega) (by have := hd; exact this) hsv ((framesR_iff _ _ _).mp hframesR) hframes
+    obtain ⟨hz2, hk2, its, cs2, hrel2, hr2, ht2, hm2⟩ := loops_chunks o hun hpr loops c2 o5 c3 (hk1.dia (by have := hd; exact this))
+      (by rw [hk1.1]; exact hsv) hloopsR hloops
+    have hdep : ¬ (c3.depth - 1 = 0) := by rw [hk2.2.1, hk1.2.1]; simp only; omega
+    simp only [hdep, if_false, Except.ok.injEq, Prod.mk.injEq] at hend
+    obtain ⟨rfl, rfl⟩ := hend
+    refine ⟨rfl, ⟨by simp only; rw [hk2.1, hk1.1], by simp only; rw [hk2.2.1, hk1.2.1]; simp only; omega,
+        by simp only; rw [hk2.2.2, hk1.2.2]⟩,
+      .frame code (es ++ its.map Elem.plain),
+      [.ws [.eol], .tk (.save code), .ws [.eol]] ++ (cs1 ++ (cs2 ++ [.ws [.eol], .tk .saveEnd, .ws [.eol]])), ?_, ?_, ?_, ?_⟩
+    · simp only [FrameRel]
+      exact ⟨es, its, hrel1, hrel2, rfl⟩
+    · have hne : ¬ (c.depth = 0) := by omega
+      rw [renderChunks_append, renderChunks_append, renderChunks_append, ← hr1, ← hr2]
+      simp [hne, renderChunks, renderWs, WsAtom.render, Tk.chars, FRAME_HEAD, FRAME_END]
+    · rw [toks_append, toks_append, toks_append, ht1, ht2]
+      simp [toks, Tk.spec, elemToks, elemsToks_append, elemsToks_plain]
+    · exact (head_frame o.dia code hcode).append
+        (hm1.append (hm2.append ((tail_frame o.dia).weaken (fun _ _ h => h.1) (fun _ _ h => h))))
 
 theorem frames_chunks (o : Parser.Opts) (hun : o.unfold = true) (hpr : o.prem = true) : ∀ (fs : List WContainer) (c : Ctx)
-    (out : Str) (c' : Ctx), c.depth = 1 → o.dia = diaOf c → c.separateValues = true → (∀ f ∈ fs, frameR o.dia o.normKey f) →
+    (out : Str) (c' : Ctx), 1 ≤ c.depth → o.dia = diaOf c → c.separateValues = true → (∀ f ∈ fs, frameR o.dia o.normKey f) →
     writeContainers fs c = .ok (out, c') →
     (c.lastColumn = 0 → c'.lastColumn = 0) ∧ KeepL c c' ∧
-    ∃ es cs, FramesRel o fs es ∧ out = renderChunks cs ∧ toks cs = elemsToks es ∧ Mach o.dia (AS o.dia) cs (AS o.dia) := by
-  intro fs
-  induction fs with
-  | nil =>
-    intro c out c' _ _ _ _ h
+    ∃ es cs, FramesRel o fs es ∧ out = renderChunks cs ∧ toks cs = elemsToks es ∧ Mach o.dia (AS o.dia) cs (AS o.dia)
+  | [], c, out, c', _, _, _, _, h => by
     simp only [writeContainers, Except.ok.injEq, Prod.mk.injEq] at h
     obtain ⟨rfl, rfl⟩ := h
-    exact ⟨fun h => h, KeepL.refl c, [], [], rfl, rfl, rfl, Mach.nil _ _⟩
-  | cons f rest ih =>
-    intro c out c' hdepth hd hsv hR h
-    obtain ⟨code, loops, rfl, hcode, hloops⟩ := hR f (by simp)
+    exact ⟨fun h => h, KeepL.refl c, [], [], by simp [FramesRel], rfl, by simp [toks, elemsToks], Mach.nil _ _⟩
+  | f :: rest, c, out, c', hdepth, hd, hsv, hR, h => by
     simp only [writeContainers] at h
     obtain ⟨o1, c1, o2, hf, hrest, rfl⟩ := andThen_ok h
-    obtain ⟨hz1, hk1, its, cs1, hrel1, hr1, ht1, hm1⟩ := frame_chunks o hun hpr code loops c o1 c1 hdepth hd hsv hcode hloops hf
-    obtain ⟨hz2, hk2, es, cs2, hrel2, hr2, ht2, hm2⟩ := ih c1 o2 c' (by rw [hk1.2.1, hdepth]) (hk1.dia hd) (by rw [hk1.1, hsv])
-      (fun x hx => hR x (by simp [hx])) hrest
-    refine ⟨fun _ => hz2 hz1, hk1.trans hk2, .frame code its :: es, cs1 ++ cs2, ⟨code, loops, its, es, rfl, hrel1, rfl, hrel2⟩,
+    obtain ⟨hz1, hk1, e, cs1, hrel1, hr1, ht1, hm1⟩ := frame_chunks o hun hpr f c o1 c1 hdepth hd hsv (hR f (by simp)) hf
+    obtain ⟨hz2, hk2, es, cs2, hrel2, hr2, ht2, hm2⟩ := frames_chunks o hun hpr rest c1 o2 c' (by rw [hk1.2.1]; exact hdepth) (hk1.dia hd)
+      (by rw [hk1.1, hsv]) (fun x hx => hR x (by simp [hx])) hrest
+    refine ⟨fun _ => hz2 hz1, hk1.trans hk2, e :: es, cs1 ++ cs2, ?_,
       by rw [renderChunks_append, hr1, hr2], by rw [toks_append, ht1, ht2]; simp [elemsToks],
       (hm1.weaken (fun _ _ h => h.1) (fun _ _ h => h)).append hm2⟩
+    simp only [FramesRel]
+    exact ⟨e, es, hrel1, rfl, hrel2⟩
+end
 
 /-- every accepted token has at least one character -/
 theorem tk_nonempty {dia : Dialect} {t : Tk} (h : t.ok dia = true) : 0 < t.chars.length := by
